@@ -20,6 +20,8 @@ func main() {
 	t0 := time.Now()
 	r1 := r.Run(runner.Opt{Stdin: []byte("C[1] D[1]\n"), StdinKind: "pty1", IdleAfter: 2 * time.Second}, "text", "parse")
 	fmt.Printf("pty1 text parse exit=%d sig=%d blocked=%v out=%d wall=%v\n", r1.Exit, r1.Signal, r1.Blocked, len(r1.Stdout), time.Since(t0).Round(time.Millisecond))
+	r2 := r.Run(runner.Opt{Stdin: []byte("C[1] D[1]\n"), StdinKind: "eio"}, "text", "parse")
+	fmt.Printf("eio text parse exit=%d out=%d err=%q\n", r2.Exit, len(r2.Stdout), firstLine(r2.Stderr))
 	res := r.Run(runner.Opt{Stdin: []byte("- chord: {degree: \"1\", name: \"m7\"}\n  values: [1]\n"), StdinKind: "pty"}, "write", "event")
 	fmt.Printf("pty write event exit=%d out=%d err=%q\n", res.Exit, len(res.Stdout), firstLine(res.Stderr))
 }
